@@ -169,8 +169,8 @@ Print Assumptions T06d_legacy_syntax_cnl.
    ([uvt uval i t] = uval with the value t at i); G is the tree of the generating function,
    g the entry of alternative i in the dictionary of get_mev_for_nested, gi its value at
    t = uval i.  Every nest must contain an available alternative (0 ** x is outside the regular
-   domain of evalX) and list each alternative once (a repetition, which check_partition does not
-   reject, really breaks the identity). *)
+   domain of evalX).  That every nest lists each alternative once is no longer a hypothesis: it
+   follows from the builder returning Ok (check_partition refuses a repetition, T06v below). *)
 Theorem T06e_generating_function_consistent : forall Phi
     (U : dict expr) (av : avail) (a : nn_arg) (order : list Z) (enf : R -> env)
     (aval uval : Z -> R) (muf : nnest -> R) (i : Z) (G : expr) (D : dict pv) (g : pv) (gi : R),
@@ -179,7 +179,6 @@ Theorem T06e_generating_function_consistent : forall Phi
   (forall t m, In m (nn_arg_nests a) ->
      pvX Phi (enf t) (nn_param m) = XR (muf m) /\ muf m <> 0 /\ nl_exact (nn_param m) /\
      exists j, In j (nn_alts m) /\ aval j <> 0) ->
-  (forall m, In m (nn_arg_nests a) -> NoDup (nn_alts m)) ->
   In i (keys U) -> aval i <> 0 ->
   get_mev_generating_for_nested (pe_dict U) av a order = Ok G ->
   get_mev_for_nested (pe_dict U) av a = Ok D ->
@@ -200,7 +199,6 @@ Example T06e_example : forall Phi,
   (forall t m, In m (nn_arg_nests N2) ->
      pvX Phi (enf "x3" t) (nn_param m) = XR ((fun _ => 2) m) /\ (fun _ => 2) m <> 0 /\ nl_exact (nn_param m) /\
      exists j, In j (nn_alts m) /\ aval0 j <> 0) /\
-  (forall m, In m (nn_arg_nests N2) -> NoDup (nn_alts m)) /\
   aval0 3 <> 0 /\ aval0 1 <> 0 /\
   (forall t k e, In (k, e) U0 -> evalX Phi e (enf "x1" t) = XR (uvt (fun _ => 0) 1 t k)) /\
   exists G D g3 g1,
@@ -209,11 +207,10 @@ Example T06e_example : forall Phi,
 Proof.
   intros Phi. split; [intros t; now apply A0_ok|].
   split; [intros t k e H; in_cases H; reflexivity|].
-  split; [|split; [|split; [|split; [|split]]]].
+  split; [|split; [|split; [|split]]].
   - intros t m H. simpl in H. destruct H as [<-|[]]. split; [reflexivity|].
     split; [apply not_eq_sym, Rlt_not_eq, Rlt_0_2|]. split; [exact I|].
     exists 1%Z. split; [now left|]. unfold aval0. simpl. apply R1_neq_R0.
-  - intros m H. simpl in H. destruct H as [<-|[]]. simpl. repeat constructor; simpl; intuition congruence.
   - unfold aval0. simpl. apply R1_neq_R0.
   - unfold aval0. simpl. apply R1_neq_R0.
   - intros t k e H; in_cases H; reflexivity.
@@ -231,14 +228,39 @@ Print Assumptions T06v_check_union_always.
 
 Theorem T06v_check_partition_spec : forall n,
   check_partition n = true ->
+  (forall m, In m (nl_list n) -> NoDup (nn_alts m)) /\
   pairwise_disjoint (map nn_alts (nl_list n)) = true /\
   (forall m x, In m (nl_list n) -> In x (nn_alts m) -> ~ In x (nl_alone n)).
 Proof. exact check_partition_spec. Qed.
 Print Assumptions T06v_check_partition_spec.
 
+(* a nest that lists an alternative twice is refused with a BiogemeError by every nested-logit
+   builder, in both syntaxes (its nest sum would count the alternative twice while the generating
+   function's derivative counts it once) *)
+Theorem T06v_repeated_alternative_refused : forall util av a,
+  (exists m, In m (nn_arg_nests a) /\ ~ NoDup (nn_alts m)) ->
+  (forall ch, lognested util av a ch = Err 1%Z /\ nested util av a ch = Err 1%Z) /\
+  (forall ch mu, lognested_mev_mu util av a ch mu = Err 1%Z /\ nested_mev_mu util av a ch mu = Err 1%Z) /\
+  get_mev_for_nested util av a = Err 1%Z /\
+  (forall mu, get_mev_for_nested_mu util av a mu = Err 1%Z) /\
+  (forall o, get_mev_generating_for_nested util av a o = Err 1%Z).
+Proof. exact repeated_alternative_refused. Qed.
+Print Assumptions T06v_repeated_alternative_refused.
+
+(* conversely: when a nested-logit builder returns a tree, every nest lists each alternative once *)
+Theorem T06v_accepted_nests_list_once : forall util av a ch l,
+  lognested util av a ch = Ok l -> forall m, In m (nn_arg_nests a) -> NoDup (nn_alts m).
+Proof. exact lognested_ok_nodup. Qed.
+Print Assumptions T06v_accepted_nests_list_once.
+
 Example T06v_example :
   nests_init [1; 2; 3]%Z [[1; 2]%Z] = Ok [3]%Z /\
   check_partition (mkNL [1; 2; 3]%Z [mkNN (PN d_one) [1; 2]%Z] [3]%Z) = true /\
   check_partition (mkNL [1; 2; 3]%Z [mkNN (PN d_one) [1; 2]%Z; mkNN (PN d_one) [2; 3]%Z] []) = false /\
-  nests_init [1; 2]%Z [[1; 7]%Z] = Err 1%Z.
-Proof. repeat split; vm_compute; reflexivity. Qed.
+  nests_init [1; 2]%Z [[1; 7]%Z] = Err 1%Z /\
+  check_partition (mkNL [10; 11]%Z [mkNN (PN d_one) [10; 10; 11]%Z] []) = false /\
+  (exists m, In m (nn_arg_nests (NNLegacy [(PN d_one, [10; 10; 11]%Z)])) /\ ~ NoDup (nn_alts m)).
+Proof.
+  repeat split; try (vm_compute; reflexivity).
+  eexists. split; [now left|]. simpl. intros H. inversion H as [|? ? Hn _]; subst. apply Hn. now left.
+Qed.
